@@ -3,10 +3,13 @@ package rules
 import (
 	"fmt"
 	"go/ast"
+	"go/constant"
 	"sort"
 	"strings"
 
 	"golang.org/x/tools/go/packages"
+
+	"pigeonverif/internal/load"
 )
 
 // Speculative errors in the front-end grammar (C03-h), read off the grammar literal and the action methods of
@@ -424,4 +427,64 @@ func c03CodeStrings(c *Ctx, root *packages.Package, l *layoutCtx) {
 	}
 	r.Check(len(bad) == 0, "C03-i", "A.pigeon.go:CodeStringLiteral:every-escape-is-passed-over", "", "pigeon.go", fmt.Sprintf("%d quoted forms, each passing over a backslash with whatever follows it", n),
 		strings.Join(bad, "; ")+": a Go string with such an escape (\"}\\n\") is not skipped as a unit, its characters are read one by one by rule Code, and a brace inside it ends or extends the code block - the grammar is rejected or the rules that follow are swallowed")
+}
+
+// c03Cutsets (C03-j): strings.Trim, TrimLeft and TrimRight take a *set* of characters and remove every leading /
+// trailing occurrence of any of them - not one prefix or suffix. Applied to grammar text, where a repeated character is
+// significant, they eat members: strings.TrimLeft(raw, "^") on the text of [^^a] removes the marker *and* the literal
+// caret. Every such call in the front-end packages with a constant cut set of non-blank characters is listed below
+// with the reason why repetition cannot occur there, or is reported (TrimPrefix / TrimSuffix / CutPrefix remove one).
+var cutsetReasons = map[string]string{
+	"ast.escapeRune": "strips the single quotes strconv.QuoteRune just put around one rune; the result is display text of a merged class (C09-j)",
+}
+
+func c03Cutsets(c *Ctx, g *load.G) {
+	r := c.R
+	n := 0
+	var bad []string
+	for _, sfx := range []string{"", "ast", "builder", "bootstrap"} {
+		p := g.Pkg(sfx)
+		if p == nil {
+			continue
+		}
+		for i, f := range p.Syntax {
+			fn := p.CompiledGoFiles[i]
+			if strings.HasSuffix(fn, "_test.go") || strings.HasSuffix(fn, "/pigeon.go") || strings.HasSuffix(fn, "generated_static_code.go") || strings.HasSuffix(fn, "generated_static_code_range_table.go") {
+				continue
+			}
+			for _, d := range f.Decls {
+				fd, ok := d.(*ast.FuncDecl)
+				if !ok || fd.Body == nil {
+					continue
+				}
+				for _, ce := range callsIn(fd.Body) {
+					cn := callName(ce)
+					switch cn {
+					case "strings.Trim", "strings.TrimLeft", "strings.TrimRight", "bytes.Trim", "bytes.TrimLeft", "bytes.TrimRight":
+					default:
+						continue
+					}
+					if len(ce.Args) != 2 {
+						continue
+					}
+					tv, ok := p.TypesInfo.Types[ce.Args[1]]
+					if !ok || tv.Value == nil {
+						continue // a computed cut set: not a fixed decoration
+					}
+					set := constant.StringVal(tv.Value)
+					if strings.TrimSpace(set) == "" {
+						continue // white space: runs of blanks are layout
+					}
+					n++
+					key := p.Types.Name() + "." + fd.Name.Name
+					if _, listed := cutsetReasons[key]; listed {
+						continue
+					}
+					bad = append(bad, fmt.Sprintf("%s: %s calls %s(%s, %q), which removes every leading/trailing %q, not one: where the text may repeat that character (the class [^^a] starts with the marker and a literal caret) the repeated ones are lost - strings.TrimPrefix / TrimSuffix remove exactly one", g.Where(ce.Pos()), key, cn, nospace(ce.Args[0]), set, set))
+				}
+			}
+		}
+	}
+	r.Analysed["cutset_trims"] = n
+	r.Check(len(bad) == 0, "C03-j", "G:cutset-trims-of-grammar-text", "", "main.go, ast/, builder/, bootstrap/", fmt.Sprintf("%d cut-set trim(s) with a non-blank set, all listed with a reason", n), strings.Join(bad, "; "))
 }
